@@ -245,10 +245,15 @@ def guarded_run_impl(prop, case, timeout=None):
         return obs, None, False
     except (CaseTimeout, MemoryError):
         return None, None, True
-    except Exception as e:  # harness-level failure: infrastructure, not a verdict
+    except Exception as e:
         if fired:
             return None, None, True
-        return None, 'harness error: %r\n%s' % (e, traceback.format_exc()), False
+        tb = traceback.extract_tb(e.__traceback__)
+        if tb and os.path.abspath(tb[-1].filename).startswith(REPO + os.sep):
+            # raised by the code under test (innermost frame in /repo) and not handled by the scenario: an outcome to report with
+            # this input, not a failure of the machinery (on the unchanged tree no scenario ends this way)
+            return {'__raised__': '%s: %s (%s:%d)' % (type(e).__name__, str(e)[:200], os.path.relpath(tb[-1].filename, REPO), tb[-1].lineno)}, None, False
+        return None, 'harness error: %r\n%s' % (e, traceback.format_exc()), False     # infrastructure, not a verdict
     finally:
         signal.setitimer(signal.ITIMER_REAL, 0)
         signal.signal(signal.SIGALRM, old)
@@ -276,7 +281,7 @@ def _worker(args):
     if with_model:
         lines, spans = [], []
         for case, (obs, err) in zip(chunk, obs_list):
-            ls = prop.model_lines(case, obs) if err is None else []
+            ls = prop.model_lines(case, obs) if err is None and not (isinstance(obs, dict) and '__raised__' in obs) else []
             spans.append((len(lines), len(lines) + len(ls)))
             lines += ls
         try:
@@ -288,6 +293,11 @@ def _worker(args):
         if i in skipped:
             r['err'] = None
             r['skipped'] = True
+            results.append(r)
+            continue
+        if isinstance(obs, dict) and '__raised__' in obs:
+            r['oracle'] = [{'signature': 'implementation-raised', 'what': 'the implementation raised out of the scenario on this input: ' + obs['__raised__']}]
+            r['key'] = json.dumps(case, sort_keys=True, default=str)
             results.append(r)
             continue
         if i in hung:
@@ -443,9 +453,11 @@ def main(prop):
                 return sig == HANG_SIG
             if err_c is not None:
                 return False
+            if isinstance(obs_c, dict) and '__raised__' in obs_c:
+                return sig == 'implementation-raised'
             return any(x['signature'] == sig for x in prop.oracle(c, obs_c))
         start = r['case']
-        if hasattr(prop, 'explicit') and sig != HANG_SIG:
+        if hasattr(prop, 'explicit') and sig not in (HANG_SIG, 'implementation-raised'):
             try:
                 cand = prop.explicit(r['case'], r['obs'])
                 if still(cand):
@@ -456,7 +468,7 @@ def main(prop):
         obs, _e, _h = guarded_run_impl(prop, small)
         path = write_replay(prop.id, {'property': prop.id, 'kind': 'failing-input', 'signature': sig,
                                       'what': o['what'], 'case': small, 'observation': obs,
-                                      'oracle': prop.oracle(small, obs) if obs is not None else [o], 'broken': broken,
+                                      'oracle': prop.oracle(small, obs) if obs is not None and '__raised__' not in (obs if isinstance(obs, dict) else {}) else [o], 'broken': broken,
                                       'distinct_signatures': sorted({x['signature'] for _, x in new_fail})})
         cdir = os.path.join(VERIF, 'corpus', prop.id)
         lines.append('VIOLATION property=%s replay=%s' % (prop.id, os.path.relpath(path, VERIF)))
